@@ -116,6 +116,11 @@ def run_case(darsia, rng, tid, c):
                 calls["injected"] = True
                 raise InjectedFault(f"injected failure of the inner solve of iteration {c['fault']}")
         out = orig_ls(*a, **k)
+        if i == 0:
+            try:      # the initial (Darcy) iterate, in case the loop never passes it to the cost functional
+                calls["init_flux"] = np.array(np.asarray(out[0], dtype=float)[:int(grid.num_faces)], copy=True)
+            except Exception:  # noqa
+                pass
         try:   # achieved precision of this inner solve (residual in the system it was given)
             M, b = a[0], np.asarray(a[1], dtype=float)
             # absolute residual, in units of the mass right-hand side (the rhs of an accelerated iteration can be
@@ -175,6 +180,8 @@ def run_case(darsia, rng, tid, c):
     hist = info["convergence_history"]
     ncompleted = len(hist["distance"])
     # event stream: versions[0] = Darcy init, versions[k] = iterate after k completed iterations
+    if not versions:
+        versions.append(calls["init_flux"] if "init_flux" in calls else np.full(nf, np.nan))
     if len(versions) < ncompleted + 1:
         # an iteration that reproduces the previous flux exactly adds no new version
         while len(versions) < ncompleted + 1:
